@@ -380,7 +380,8 @@ static void case_roundtrip(KeyEnt &K, Rng &r, KeyEnt *K2) {
 	// generated keys are valid (secret key, public key, re-imported texts)
 	{ bool ok = K.pk->check(); count("check_generated"); note("check/pk", K.ref); if (!ok) violation("C10/key/generated-key-refused", "TMCG_PublicKey::check() false for a generated key", J().kv("keybits", K.spec.bits).kv("nizk", K.spec.nizk).kv("pub", shorten(K.pubt, 900)).str());
 	  if (ctx.option_l("rec", 1)) { emit_key(K); J j; j.kv("r", "c").kv("k", K.ref).kv("sec", false).kv("cls", "honest").kv("field", "-").kv("mut", "-").kv("acc", (int)ok).kv("imp", true); put_patch(j, K.pubt, K.pubt); record(j.str()); } }
-	if (!K.spec.nizk || K.spec.bits <= 700) { bool ok = K.sk->check(); count("check_generated"); note("check/sk", K.ref); if (!ok) violation("C10/key/generated-key-refused", "TMCG_SecretKey::check() false for a generated key", J().kv("keybits", K.spec.bits).str()); eval_keytext(K, false, K.pubt, "-", "-"); eval_keytext(K, true, K.sect, "-", "-"); }
+	if (!K.spec.nizk) { bool ok = K.sk->check(); count("check_generated"); note("check/sk", K.ref); if (!ok) violation("C10/key/generated-key-refused", "TMCG_SecretKey::check() false for a generated key", J().kv("keybits", K.spec.bits).str()); eval_keytext(K, false, K.pubt, "-", "-"); eval_keytext(K, true, K.sect, "-", "-"); }
+	else if (K.spec.bits <= 700 || ctx.thorough()) { eval_keytext(K, true, K.sect, "-", "-"); count("check_generated"); }    // proof verified once more through the secret key text
 	if (K.sk->fingerprint() != K.pk->fingerprint()) violation("C10/key/fingerprint-differs", "secret and public key fingerprints differ");
 	// signatures
 	if (!K.can_sign()) { count("sign_precondition_unmet"); }
@@ -534,7 +535,7 @@ static void case_key_tamper(KeyEnt &K, Rng &r, bool sec) {
 	bool full = ctx.thorough(); const std::string &orig = sec ? K.sect : K.pubt;
 	std::vector<std::string> F = split(orig, '|'); size_t nint = sec ? 4 : 2, inz = 4 + nint, isig = inz + 1;
 	if (F.size() != isig + 4) { violation("C10/key/malformed-export", "exported key text has an unexpected number of fields", J().kv("text", shorten(orig, 400)).kv("fields", (long long)F.size()).str()); return; }
-	bool cheap_equiv = !K.spec.nizk || K.spec.bits <= 450;       // an accepted NIZK key costs a full proof verification
+	bool cheap_equiv = !K.spec.nizk;       // an accepted NIZK key costs a full proof verification
 	auto with = [&](size_t i, const std::string &x) { std::vector<std::string> f = F; f[i] = x; return join(f, '|'); };
 	const char *fn_pub[] = {"magic", "name", "email", "type", "m", "y", "nizk", "sig-magic", "sig-keyid", "sig-value"}, *fn_sec[] = {"magic", "name", "email", "type", "m", "y", "p", "q", "nizk", "sig-magic", "sig-keyid", "sig-value"};
 	auto fname = [&](size_t i) { return std::string(sec ? fn_sec[i] : fn_pub[i]); };
@@ -584,7 +585,7 @@ static void case_key_tamper(KeyEnt &K, Rng &r, bool sec) {
 	for (auto &mu : str_muts(F[isig + 1], r, true)) eval_keytext(K, sec, with(isig + 1, mu.text), "sig-keyid", mu.name);
 	for (auto &mu : int_muts(F[isig + 2], K.sk->m, r, true, cheap_equiv)) eval_keytext(K, sec, with(isig + 2, mu.text), "sig-value", mu.name);   // -v, m-v ... change the key id (tail of the text): tamper
 	eval_keytext(K, sec, orig.substr(0, orig.size() - 1), "structure", "last delimiter dropped"); eval_keytext(K, sec, "", "structure", "empty text");
-	if (cheap_equiv) eval_keytext(K, sec, orig + "x", "structure", "text after last delimiter");
+	if (cheap_equiv || K.spec.bits <= 700) eval_keytext(K, sec, orig + "x", "structure", "text after last delimiter");
 	count(sec ? "sec_key_tamper_sets" : "pub_key_tamper_sets");
 }
 
@@ -660,9 +661,12 @@ int main(int argc, char **argv) {
 	for (auto &ks : keys) {
 		bool big = ks.bits >= 2048, slow = ks.nizk && ks.bits > 700;
 		struct Op { const char *name; int block, nblocks; }; std::vector<Op> ops;
-		ops.push_back({"roundtrip", 0, 1}); ops.push_back({"sig-tamper", 0, 1}); if (size_pre(ks.bits).enc_ok) ops.push_back({"enc-tamper", 0, 1}); ops.push_back({"pubkey-tamper", 0, 1});
-		if (!big) ops.push_back({"seckey-tamper", 0, 1});
-		int nb = !ks.nizk ? 1 : (quick ? (slow ? 3 : 2) : (big ? 2 : 16));
+		bool tamper_ops = !quick || !ks.nizk;     // the proof plays no role in sign/verify/encrypt/decrypt: quick uses the plain keys for these
+		ops.push_back({"roundtrip", 0, 1});
+		if (tamper_ops && !(big && ks.nizk)) { ops.push_back({"sig-tamper", 0, 1}); if (size_pre(ks.bits).enc_ok) ops.push_back({"enc-tamper", 0, 1}); }
+		if (!(big && ks.nizk)) ops.push_back({"pubkey-tamper", 0, 1});
+		if (tamper_ops && !big) ops.push_back({"seckey-tamper", 0, 1});
+		int nb = !ks.nizk ? 1 : (quick ? (slow ? 0 : 2) : (big ? 1 : 16));
 		for (int b = 0; b < nb; b++) ops.push_back({"resigned", b, nb});
 		for (auto &op : ops) {
 			J d; d.kv("op", op.name).kv("keybits", ks.bits).kv("nizk", ks.nizk).kv("keyidx", ks.id); if (op.nblocks > 1) d.kv("block", op.block);
